@@ -243,6 +243,23 @@ static void c10_unary(Context& cx, const Fn& f, mfn::Arbiter& arb)
             }
         cx.st.cls("switch_point_windows", f.points.size() * 2);
     }
+    // (b2) trigonometric functions: the floats nearest to a multiple of pi/2 in every binade (hardest arguments of the reduction)
+    if ((f.flags & mfn::LOOPS) && f.arity == 1 && (std::string(f.name) == "sin" || std::string(f.name) == "cos" || std::string(f.name) == "tan" || std::string(f.name).rfind("sincos", 0) == 0)
+        && cx.opt.worker == (int)((hash_str(f.name) + 1) % (uint64_t)cx.opt.nworkers))
+    {
+        static const std::vector<float> hard = pio2_hard_cases<float>();
+        size_t m = 0;
+        for (float h : hard)
+        {
+            xs[m] = h;
+            refs[m] = (ld)f.r32((double)xs[m], 0);
+            ++m;
+        }
+        cx.st.evaluations += m;
+        nontriv += m;
+        process(m, "pio2_hard");
+        cx.st.cls("pio2_hard_cases", m);
+    }
     // (c) companion layout: the tested value in one lane, companions of very different magnitude in the others
     {
         const uint64_t cstride = stride * (thorough ? 64 : 29);
